@@ -136,10 +136,16 @@ pub fn threads(sink: &mut Sink, seed: u64, thorough: bool, grp0: u64) {
         let shared = Arc::new(shared);
         // two different QR codes of the SAME version: a renderer must tell them apart (its output depends on the QR code, not on its size)
         let shared_qr: Arc<Vec<QRCode>> = Arc::new((0..2).map(|k| qr_of(1 + pi % 5, seed + 17 * k as u64 + pi as u64)).collect());
-        let render_prog: Vec<Call> = vec![Call::Margin(pi % 5), Call::Shape(pi % 6)];
+        // renderer programs with different numbers of shape layers and options; every thread uses all of them in its own order
+        let render_progs: Arc<Vec<Vec<Call>>> = Arc::new(vec![
+            vec![Call::Margin(pi % 5), Call::Shape(pi % 6)],
+            vec![Call::Shape((pi + 1) % 6), Call::ShapeColor(pi % 6, vec![200, 30, 40, 255]), Call::Margin(1)],
+            vec![],
+            vec![Call::ShapeColor(0, vec![18, 52, 86, 255]), Call::Shape(1), Call::Shape(5), Call::BackgroundColor(vec![250, 240, 230, 255])],
+        ]);
         let mut handles = Vec::new();
         for t in 1..=nthreads {
-            let (shared, shared_qr, render_prog) = (shared.clone(), shared_qr.clone(), render_prog.clone());
+            let (shared, shared_qr, render_progs) = (shared.clone(), shared_qr.clone(), render_progs.clone());
             let tseed = seed.wrapping_mul(1000003).wrapping_add((pi * 31 + t) as u64);
             handles.push(std::thread::spawn(move || {
                 let mut r = rng(tseed, 42);
@@ -150,8 +156,8 @@ pub fn threads(sink: &mut Sink, seed: u64, thorough: bool, grp0: u64) {
                 let input: Vec<u8> = payload(&mut r, 1, 5 + t % 20, false);
                 let mut private = QRBuilder::new(input.clone());
                 seq += 1; evs.push(json!({"ev": "HNew", "tid": tid, "seq": seq, "bid": bid, "tag": "hnew", "input": input}));
-                for _ in 0..6 {
-                    match r.gen_range(0..6) {
+                for _ in 0..9 {
+                    match r.gen_range(0..7) {
                         0 | 1 => {
                             let reg = r.gen_range(0..4usize);
                             let val: i64 = match reg { 0 => r.gen_range(0..4), 1 => r.gen_range(1..3), 2 => r.gen_range(3..7), _ => r.gen_range(0..8) };
@@ -164,13 +170,16 @@ pub fn threads(sink: &mut Sink, seed: u64, thorough: bool, grp0: u64) {
                             let q = &shared_qr[k % 2];
                             let before = qr_modules(q);
                             let which = r.gen_range(0..3usize);
+                            let pidx = if which == 0 { 0 } else { r.gen_range(0..render_progs.len()) };
+                            let render_prog = &render_progs[pidx];
                             let bytes: Vec<u8> = match which {
                                 0 => q.to_str().into_bytes(),
-                                1 => svg_builder(&render_prog).to_str(q).into_bytes(),
-                                _ => image_builder(&render_prog).to_pixmap(q).data().to_vec(),
+                                1 => svg_builder(render_prog).to_str(q).into_bytes(),
+                                _ => image_builder(render_prog).to_pixmap(q).data().to_vec(),
                             };
                             seq += 1;
-                            evs.push(json!({"ev": "HRender", "tid": tid, "seq": seq, "tag": format!("hrender:{}", ["text", "svg", "raster"][which]), "qrid": k % 2, "renderer": which,
+                            // renderer id = kind and program: the memo of the trace specification is keyed by (QR code, renderer id)
+                            evs.push(json!({"ev": "HRender", "tid": tid, "seq": seq, "tag": format!("hrender:{}", ["text", "svg", "raster"][which]), "qrid": k % 2, "renderer": which * 10 + pidx,
                                             "hash": fnv(&bytes).to_vec(), "qr_unchanged": (before == qr_modules(q)) as u8}));
                         }
                     }
